@@ -27,7 +27,7 @@ func ruleFreshWinsOverCache(c *Ctx) {
 			}
 		}
 		var order []int
-		walkAll(u.Body, func(n ast.Node) bool {
+		u.walk(func(n ast.Node) bool {
 			if rs, ok := n.(*ast.RangeStmt); ok {
 				if cx, ok := unparen(rs.X).(*ast.CallExpr); ok && strings.HasSuffix(CalleeName(u.Info, cx), ".GetEpoch") {
 					if sel, ok := unparen(cx.Fun).(*ast.SelectorExpr); ok {
@@ -41,6 +41,7 @@ func ruleFreshWinsOverCache(c *Ctx) {
 			}
 			return true
 		})
+
 		c.Check(len(order) == 2 && order[0] == 0 && order[1] == 1, rule, u.Name, "right-operand-wins", c.P.Pos(u.Body.Pos()), "ColumnSeriesUnion records the left operand's epochs first and the right operand's after them: on duplicates the RIGHT operand wins")
 	}
 	n := 0
@@ -53,7 +54,7 @@ func ruleFreshWinsOverCache(c *Ctx) {
 				return false
 			}
 			ok := false
-			walkAll(s.Body, func(m ast.Node) bool {
+			s.walk(func(m ast.Node) bool {
 				if as, isAs := m.(*ast.AssignStmt); isAs && len(as.Rhs) == 1 && len(as.Lhs) >= 1 && identObj(s.Info, as.Lhs[0]) == o {
 					if call, isC := unparen(as.Rhs[0]).(*ast.CallExpr); isC && strings.HasSuffix(CalleeName(s.Info, call), "trigger.RecordsToColumnSeries") {
 						ok = true
@@ -61,6 +62,7 @@ func ruleFreshWinsOverCache(c *Ctx) {
 				}
 				return true
 			})
+
 			return ok
 		}
 		cached := func(e ast.Expr) bool {
@@ -87,13 +89,13 @@ func ruleReplicaRecordType(c *Ctx) {
 	file := c.P.FileOf(s.Pkg, s.Body.Pos())
 	par := c.P.Parents(file)
 	n := 0
-	walkAll(s.Body, func(m ast.Node) bool {
+	s.walk(func(m ast.Node) bool {
 		cx, ok := m.(*ast.CallExpr)
 		if !ok || fieldKey(s.Info, cx.Fun) != "replication.ReplayerImpl.writeFunc" || len(cx.Args) != 2 {
 			return true
 		}
 		n++
-		// enclosing range statement's value variable (or a copy of it)
+
 		var loopVars []types.Object
 		for p := par[cx]; p != nil; p = par[p] {
 			if rs, ok := p.(*ast.RangeStmt); ok {
@@ -107,7 +109,7 @@ func ruleReplicaRecordType(c *Ctx) {
 						loopVars = append(loopVars, o)
 					}
 				}
-				// copies: x := x inside the loop body
+
 				walkAll(rs.Body, func(k ast.Node) bool {
 					if as, ok := k.(*ast.AssignStmt); ok && as.Tok == token.DEFINE && len(as.Lhs) == 1 && len(as.Rhs) == 1 {
 						for _, lv := range loopVars {
@@ -120,6 +122,7 @@ func ruleReplicaRecordType(c *Ctx) {
 					}
 					return true
 				})
+
 				break
 			}
 		}
@@ -133,6 +136,7 @@ func ruleReplicaRecordType(c *Ctx) {
 			"the isVariableLength argument of writeFunc derives from the write set being replayed in this iteration (found: "+canonExpr(s.Info, cx.Args[1])+"); a fixed element applies one record type to every set of a mixed transaction group")
 		return true
 	})
+
 	c.Floor(rule, s.Name, "writeFunc call sites", n, 1)
 }
 
@@ -151,7 +155,7 @@ func ruleReplicateWhatWasLogged(c *Ctx) {
 	c.reportHits(rule, s, "replicate-after-fsync", r, "a transaction is handed to the replicas only after it was fsynced to the master's WAL", "a transaction can reach replicas before it is durable on the master")
 	// same bytes
 	var tg types.Object
-	walkAll(s.Body, func(n ast.Node) bool {
+	s.walk(func(n ast.Node) bool {
 		if as, ok := n.(*ast.AssignStmt); ok && len(as.Rhs) == 1 {
 			if cx, ok := unparen(as.Rhs[0]).(*ast.CallExpr); ok && CalleeName(s.Info, cx) == fnSerializeTG && len(as.Lhs) > 0 {
 				tg = identObj(s.Info, as.Lhs[0])
@@ -159,6 +163,7 @@ func ruleReplicateWhatWasLogged(c *Ctx) {
 		}
 		return true
 	})
+
 	for _, n := range s.sites(send) {
 		cx := n.(*ast.CallExpr)
 		c.Check(tg != nil && len(cx.Args) == 1 && identObj(s.Info, cx.Args[0]) == tg, rule, s.Name, "replicates-the-logged-bytes", c.P.Pos(cx.Pos()), "the replicas receive exactly the serialized TG that was written to the WAL")
@@ -199,13 +204,13 @@ func ruleTriggerDispatch(c *Ctx) {
 	}
 	ok := false
 	var pos ast.Node = s.Body
-	walkAll(s.Body, func(n ast.Node) bool {
+	s.walk(func(n ast.Node) bool {
 		rs, isR := n.(*ast.RangeStmt)
 		if !isR || writesObj == nil || identObj(s.Info, rs.X) != writesObj || rs.Value == nil {
 			return true
 		}
 		val := identObj(s.Info, rs.Value)
-		// first-level statements of the loop body: an unconditional AppendRecord(key, val.IndexAndPayload())
+
 		for _, st := range rs.Body.List {
 			es, isE := st.(*ast.ExprStmt)
 			if !isE {
@@ -224,6 +229,7 @@ func ruleTriggerDispatch(c *Ctx) {
 		}
 		return true
 	})
+
 	c.Check(ok, rule, s.Name, "every-applied-write-is-recorded", c.P.Pos(pos.Pos()), "the slice handed to writePrimary is ranged over and every element's index+payload is passed unconditionally to AppendRecord")
 	// DispatchRecords runs on every exit (deferred before any return)
 	deferred := func(sub, top ast.Node) bool {
@@ -294,7 +300,7 @@ func ruleTriggerDispatch(c *Ctx) {
 	const r4 = "R32.4"
 	if m := c.S(r4, "(*plugins/trigger.Matcher).Match"); m != nil {
 		hasStart, hasEnd, quoted := false, false, false
-		walkAll(m.Body, func(n ast.Node) bool {
+		m.walk(func(n ast.Node) bool {
 			if bl, isB := n.(*ast.BasicLit); isB && bl.Kind == token.STRING {
 				if v, ok := constString(m.Info, bl); ok {
 					if strings.HasPrefix(v, "^") || strings.HasPrefix(v, "(^|/)") {
@@ -310,6 +316,7 @@ func ruleTriggerDispatch(c *Ctx) {
 			}
 			return true
 		})
+
 		usesRegexp := len(m.sites(callPred(m, "regexp.MatchString", "regexp.MustCompile", "regexp.Compile"))) > 0
 		if !usesRegexp {
 			c.Hold(r4, m.Name, "anchored-pattern", c.P.Pos(m.Body.Pos()), "Match does not build a regular expression from the trigger pattern")
@@ -402,7 +409,7 @@ func (c *Ctx) csvRest() {
 	const r2 = "R33.2"
 	if cv := c.S(r2, "cmd/connect/loader.convertCSVtoCSM"); cv != nil {
 		var ep types.Object
-		walkAll(cv.Body, func(m ast.Node) bool {
+		cv.walk(func(m ast.Node) bool {
 			if as, ok := m.(*ast.AssignStmt); ok && len(as.Rhs) == 1 && len(as.Lhs) >= 1 {
 				if cx, ok := unparen(as.Rhs[0]).(*ast.CallExpr); ok && CalleeName(cv.Info, cx) == "cmd/connect/loader.readTimeColumns" {
 					ep = identObj(cv.Info, as.Lhs[0])
@@ -410,6 +417,7 @@ func (c *Ctx) csvRest() {
 			}
 			return true
 		})
+
 		if ep == nil {
 			c.Undecided(r2, cv.Name, "time-columns", "result of readTimeColumns not found")
 		} else {
